@@ -204,12 +204,12 @@ def check(case) -> Outcome:
     classes = ["rw_" + r for r in sorted(set(case["rewrites"]))] + [f for f in feats if f in ("vars1", "vars2", "vars3",
                                                                                              "or_diff_vars", "not")]
     try:
-        got_b, _ = run_query(base, objs)
+        got_b, _ = run_query(base, objs, times=2)
     except Exception as e:
         return fail("exception_base", f"{type(e).__name__}: {e}", nontrivial=nontrivial, classes=classes, features=feats)
     objs2 = build_entities(var["ents"])
     try:
-        got_v, _ = run_query(var, objs2)
+        got_v, _ = run_query(var, objs2, times=2)
     except Exception as e:
         return fail("exception_variant", f"{type(e).__name__}: {e}; base gave {got_b}", nontrivial=nontrivial,
                     classes=classes, features=feats)
